@@ -1,6 +1,6 @@
 import OW.Proofs.SacramentoInvCex
 /-!
-C10 for Sacramento — what `sacramento_bounds_partial` (OW/Props/C10.lean) left open: the state invariant through the
+C10 for Sacramento — beyond the channel stage (`sacramento_channel_nonneg`, OW/Props/C10.lean): the state invariant through the
 drainage-and-percolation loop, non-negativity of every output, and the water budget for every prefix of every run.
 
 Kernel model: OW/Kernels/Sacramento.lean (mirror of models/rr/sacramento.go as repaired by the ratio clamp and the
